@@ -1,7 +1,397 @@
-import ArchSim.Model.Cache
+/-
+C03 — data cache transparency.
+
+Property theorems only (plus non-vacuity examples).  Definitions: `ArchSim/Spec/CacheAbs.lean`
+(`PolicyOK`, `GeoOK`, `CInv`, `logical`, `updBytes`, `Op`, `runOps`, `flatOps`, `agrees`, `preload`);
+helper lemmas: `ArchSim/Lemmas/C03*.lean`.
+
+Setting.  `s : DSys σ` is a data-cache memory system (write-through if `s.wt`, else write-back) of any
+geometry `s.geo` with `GeoOK` (tag+index+block+byte bits ≤ 32, at least one way, `blkBits ≤ 12`), over
+the RISC-V data memory (8-bit cells, addresses modulo 2^32, valid range [16384, 2^32)), with ANY
+replacement policy `P` that satisfies the three-clause interface `PolicyOK P assoc WFp` (instances:
+LRU, PLRU, and the "forced victim" policy of the differential harness, which makes the theorems cover
+every possible victim choice).  The miss penalty and the hit/access counters are arbitrary: no theorem
+constrains them.
+
+`CInv WFp s` is the representation invariant of reachable states, `logical s a` the byte the system
+holds at (wrapped) address `a`: the byte lane of the resident block if the block of `a` is resident,
+else the backing cell.  An access is *accepted* when `widthOK bits` (8/16/32), `inWord bits addr`
+(it does not cross a word boundary) and `inData addr` (wrapped address ≥ 16384).
+-/
+import ArchSim.Lemmas.C03Hist
+
 namespace ArchSim.Props.C03
-open ArchSim.Cache
+open ArchSim ArchSim.Cache ArchSim.Mem ArchSim.Spec.ByteStore ArchSim.Lemmas.C18 ArchSim.Spec.CacheAbs
+open ArchSim.Lemmas.C03
+
+variable {σ : Type} {P : PolicyOps σ} {WFp : σ → Prop}
+
 /-- The decoded byte offset is always below 4. -/
 theorem decode_byteOff_lt (i b : Nat) (a : Int) : (decode i b a).byteOff < 4 := by
   simp only [decode]; omega
+
+/-! ## 0  The policies of the simulator satisfy the policy interface -/
+
+/-- LRU (any associativity ≥ 1) and PLRU (associativity a power of two, as the Python constructor
+    asserts) satisfy `PolicyOK` with `Pol.WF assoc` as the well-formedness predicate. -/
+theorem policy_ok_lru_plru (isLru : Bool) (assoc : Nat) (ha : 0 < assoc)
+    (h : isLru = false → ∃ d, assoc = 2 ^ d) :
+    PolicyOK (polOps isLru) assoc (Repl.Pol.WF assoc) :=
+  pol_ok isLru assoc ha h
+
+/-- The forced-victim policy (state = the way to displace next, any way of the set) satisfies
+    `PolicyOK`: the theorems below therefore hold for every victim choice whatsoever. -/
+theorem policy_ok_forced (assoc : Nat) (ha : 0 < assoc) :
+    PolicyOK forcedOps assoc (fun v => v < assoc) :=
+  forced_ok assoc ha
+
+/-! ## 1  Initial state and preloads -/
+
+/-- A freshly constructed memory system (any admissible geometry, write policy, penalty, policy)
+    over the empty RISC-V memory satisfies the invariant and holds 0 everywhere. -/
+theorem init_inv (g : Geo) (hg : GeoOK g) (hP : PolicyOK P g.assoc WFp) (wt : Bool) (penalty : Nat) :
+    CInv WFp (DSys.init P wt g penalty (Mem.empty riscvCfg)) ∧
+      ∀ a, logical (DSys.init P wt g penalty (Mem.empty riscvCfg)) a = 0 := by
+  obtain ⟨h1, h2⟩ := CInv_of_empty (WFp := WFp) (s := DSys.init P wt g penalty (Mem.empty riscvCfg))
+    hg (initSets_ok g hP) MemOK_empty (fun k t => lookup_initSets g k t)
+  exact ⟨h1, fun a => (h2 a).trans rfl⟩
+
+/-- After any sequence `h` of direct writes to the lower memory (the parser's `.data` preloads: any
+    widths, addresses and values, failing and truncated writes included) performed before anything is
+    cached, the invariant holds, the backing memory is the flat memory `run riscvCfg h` of C18, and
+    the logical contents are its history-defined cell map `B`. -/
+theorem preload_inv (g : Geo) (hg : GeoOK g) (hP : PolicyOK P g.assoc WFp) (wt : Bool) (penalty : Nat)
+    (h : List Spec.ByteStore.Op) :
+    CInv WFp (preload (DSys.init P wt g penalty (Mem.empty riscvCfg)) h) ∧
+      (preload (DSys.init P wt g penalty (Mem.empty riscvCfg)) h).mem = run riscvCfg h ∧
+      ∀ a, logical (preload (DSys.init P wt g penalty (Mem.empty riscvCfg)) h) a =
+        B riscvCfg h ((wrap32 a : Nat) : Int) := by
+  obtain ⟨e1, e2, e3, _⟩ := preload_spec (DSys.init P wt g penalty (Mem.empty riscvCfg)) h
+  have hm : (preload (DSys.init P wt g penalty (Mem.empty riscvCfg)) h).mem = run riscvCfg h := e1
+  obtain ⟨h1, h2⟩ := CInv_of_empty (WFp := WFp)
+    (s := preload (DSys.init P wt g penalty (Mem.empty riscvCfg)) h)
+    (by rw [e3]; exact hg) (by rw [e2, e3]; exact initSets_ok g hP) (by rw [hm]; exact MemOK_run h)
+    (fun k t => by rw [e2]; exact lookup_initSets g k t)
+  refine ⟨h1, hm, fun a => ?_⟩
+  rw [h2 a, hm, run_eq, applyCells_cells]
+  rfl
+
+/-- `reset()` (a new cache, the lower memory cleared, counters kept) re-establishes the invariant with
+    all-zero logical contents, from any state with an admissible geometry and RISC-V memory. -/
+theorem reset_inv {s : DSys σ} (hg : GeoOK s.geo) (hc : s.mem.cfg = riscvCfg)
+    (hP : PolicyOK P s.geo.assoc WFp) :
+    CInv WFp (s.reset P) ∧ ∀ a, logical (s.reset P) a = 0 := by
+  have hm : (s.reset P).mem = Mem.empty riscvCfg := by
+    show Mem.empty s.mem.cfg = _; rw [hc]
+  obtain ⟨h1, h2⟩ := CInv_of_empty (WFp := WFp) (s := s.reset P) hg (initSets_ok s.geo hP)
+    (by rw [hm]; exact MemOK_empty) (fun k t => lookup_initSets s.geo k t)
+  exact ⟨h1, fun a => by rw [h2 a, hm]; rfl⟩
+
+/-! ## 2  Reads -/
+
+/-- C03, reads.  An accepted read (byte, half-word or word within one word of the data range, counted
+    in the statistics or not) through the cached system returns exactly the value a flat memory
+    holding the logical contents returns — the little-endian composition of the logical bytes at the
+    accessed addresses.  The invariant is kept and the logical contents do not change, although the
+    read may fill a block and evict (and, under write-back, write back) another. -/
+theorem read_refines {s : DSys σ} (hP : PolicyOK P s.geo.assoc WFp) (hs : CInv WFp s)
+    (bits : Nat) (addr : Int) (counted : Bool) (hb : widthOK bits) (hw : inWord bits addr)
+    (hin : inData addr) :
+    (s.read P bits addr counted).res =
+        .ok (leSum riscvCfg (bits / 8) (fun i => logical s (addr + (i : Int)))) ∧
+      Mem.read (flatOf s) bits addr =
+        some (.ok (leSum riscvCfg (bits / 8) (fun i => logical s (addr + (i : Int))))) ∧
+      CInv WFp (s.read P bits addr counted).sys ∧
+      (∀ a, logical (s.read P bits addr counted).sys a = logical s a) ∧
+      (s.read P bits addr counted).sys.geo = s.geo ∧ (s.read P bits addr counted).sys.wt = s.wt := by
+  obtain ⟨e1, e2, e3, e4, e5⟩ := read_accepted hP hs bits addr counted hb hw hin
+  exact ⟨e1, read_flatOf hs.toCInvS bits hb addr hw hin, e2, e3, e4, e5⟩
+
+/-! ## 3  Writes -/
+
+/-- C03, writes.  An accepted write of `v < 2^bits` through the cache (write-back: write-allocate,
+    possibly evicting and writing back; write-through: no-allocate, cache updated on a hit, lower
+    memory always) succeeds, keeps the invariant, and changes the logical contents exactly as the flat
+    memory changes: the `bits/8` bytes from `addr` become the little-endian bytes of `v`, every other
+    byte is unchanged (`updBytes`; `flat_write_updBytes` shows this is what `Mem.write` does). -/
+theorem write_refines {s : DSys σ} (hP : PolicyOK P s.geo.assoc WFp) (hs : CInv WFp s)
+    (bits : Nat) (addr : Int) (v : Nat) (hb : widthOK bits) (hw : inWord bits addr)
+    (hin : inData addr) (hv : v < 2 ^ bits) :
+    (s.write P bits addr v false).res = .ok 0 ∧ CInv WFp (s.write P bits addr v false).sys ∧
+      (∀ a, logical (s.write P bits addr v false).sys a = updBytes (logical s) addr (bits / 8) v a) ∧
+      (s.write P bits addr v false).sys.geo = s.geo ∧ (s.write P bits addr v false).sys.wt = s.wt := by
+  unfold DSys.write
+  simp only [Bool.false_eq_true, if_false]
+  by_cases hwt : s.wt = true
+  · rw [if_pos hwt]; exact writeWT_accepted hP hs hwt bits addr v hb hw hin hv
+  · rw [if_neg hwt]; exact writeWB_accepted hP hs (by simpa using hwt) bits addr v hb hw hin hv
+
+/-- `write_refines` for the write-back system, stated on `writeWB` itself. -/
+theorem write_refines_wb {s : DSys σ} (hP : PolicyOK P s.geo.assoc WFp) (hs : CInv WFp s)
+    (hwt : s.wt = false) (bits : Nat) (addr : Int) (v : Nat) (hb : widthOK bits)
+    (hw : inWord bits addr) (hin : inData addr) (hv : v < 2 ^ bits) :
+    (s.writeWB P bits addr v).res = .ok 0 ∧ CInv WFp (s.writeWB P bits addr v).sys ∧
+      (∀ a, logical (s.writeWB P bits addr v).sys a = updBytes (logical s) addr (bits / 8) v a) :=
+  let h := writeWB_accepted hP hs hwt bits addr v hb hw hin hv
+  ⟨h.1, h.2.1, h.2.2.1⟩
+
+/-- `write_refines` for the write-through system, stated on `writeWT` itself. -/
+theorem write_refines_wt {s : DSys σ} (hP : PolicyOK P s.geo.assoc WFp) (hs : CInv WFp s)
+    (hwt : s.wt = true) (bits : Nat) (addr : Int) (v : Nat) (hb : widthOK bits)
+    (hw : inWord bits addr) (hin : inData addr) (hv : v < 2 ^ bits) :
+    (s.writeWT P bits addr v).res = .ok 0 ∧ CInv WFp (s.writeWT P bits addr v).sys ∧
+      (∀ a, logical (s.writeWT P bits addr v).sys a = updBytes (logical s) addr (bits / 8) v a) :=
+  let h := writeWT_accepted hP hs hwt bits addr v hb hw hin hv
+  ⟨h.1, h.2.1, h.2.2.1⟩
+
+/-- `updBytes` is what the flat memory does: an accepted `Mem.write` on the flat memory holding the
+    logical contents succeeds and leaves exactly `updBytes (logical s) addr (bits/8) v`. -/
+theorem flat_write_updBytes (s : DSys σ) (bits : Nat) (hb : widthOK bits) (addr : Int) (v : Nat)
+    (hw : inWord bits addr) (hin : inData addr) :
+    ∃ m', Mem.write (flatOf s) bits addr v = some (m', none) ∧
+      ∀ a, m'.cells ((wrap32 a : Nat) : Int) = updBytes (logical s) addr (bits / 8) v a :=
+  write_flatOf s bits hb addr v hw hin
+
+/-! ## 4  Histories -/
+
+/-- C03, main theorem.  Let the cached state `s` (invariant `CInv`) represent the well-formed flat
+    memory `m` (`logical s` = cells of `m`).  Run ANY list of operations — reads (counted or not) and
+    writes of offered widths with values that fit, at arbitrary addresses, accepted or not — on the
+    cached system (`runOps`) and on the flat memory (`flatOps`: `Mem.read` / `Mem.write`, skipping
+    what the cached system rejects).  Then every accepted operation returns exactly the flat value,
+    every other one returns an error, and at the end the cached state still satisfies the invariant
+    and represents the final flat memory. -/
+theorem history_refines {s : DSys σ} (hP : PolicyOK P s.geo.assoc WFp) (hs : CInv WFp s) {m : Mem}
+    (hm : MemOK m) (hL : ∀ a, logical s a = m.cells ((wrap32 a : Nat) : Int))
+    (ops : List Spec.CacheAbs.Op) (ho : ∀ o, o ∈ ops → o.wf) :
+    agreesAll ops (runOps P s ops).2 (flatOps m ops).2 ∧ CInv WFp (runOps P s ops).1 ∧
+      MemOK (flatOps m ops).1 ∧
+      ∀ a, logical (runOps P s ops).1 a = (flatOps m ops).1.cells ((wrap32 a : Nat) : Int) := by
+  obtain ⟨⟨h1, h2, h3⟩, _, _, h4⟩ := history_agrees hP ⟨hs, hm, hL⟩ ops ho
+  exact ⟨h4, h1, h2, h3⟩
+
+/-- The same from power-on, for the policies of the simulator: every admissible geometry, write-back or
+    write-through, LRU or PLRU, any miss penalty, any `.data` preload `h`, any history `ops`: the
+    cached system answers like the flat memory `run riscvCfg h` fed the same accepted writes. -/
+theorem history_refines_from_reset (g : Geo) (hg : GeoOK g) (wt isLru : Bool) (penalty : Nat)
+    (hplru : isLru = false → ∃ d, g.assoc = 2 ^ d) (h : List Spec.ByteStore.Op)
+    (ops : List Spec.CacheAbs.Op) (ho : ∀ o, o ∈ ops → o.wf) :
+    agreesAll ops
+      (runOps (polOps isLru)
+        (preload (DSys.init (polOps isLru) wt g penalty (Mem.empty riscvCfg)) h) ops).2
+      (flatOps (run riscvCfg h) ops).2 := by
+  have hP := pol_ok isLru g.assoc hg.assoc hplru
+  obtain ⟨h1, h2, h3⟩ := preload_inv (P := polOps isLru) g hg hP wt penalty h
+  obtain ⟨_, _, e3, _⟩ := preload_spec (DSys.init (polOps isLru) wt g penalty (Mem.empty riscvCfg)) h
+  refine (history_refines (by rw [e3]; exact hP) h1 (MemOK_run h) (fun a => ?_) ops ho).1
+  rw [h3 a, run_eq, applyCells_cells]
+  rfl
+
+/-- Replacement-policy states never matter: overwriting the policy state of every set by arbitrary
+    well-formed states (for the forced-victim policy: forcing, per set, ANY way as the next victim)
+    keeps the invariant and the logical contents.  Together with `read_refines` / `write_refines`,
+    which hold in every state satisfying the invariant, this covers every possible victim choice. -/
+theorem policy_state_irrelevant {s : DSys σ} (hs : CInv WFp s) (f : Nat → σ) (hf : ∀ k, WFp (f k)) :
+    CInv WFp (setPols s f) ∧ ∀ a, logical (setPols s f) a = logical s a :=
+  setPols_inv hs f hf
+
+/-- The history theorem against an adversary: before EVERY operation all policy states are
+    overwritten (by any well-formed states — `runOpsAdv`); still every accepted operation returns the
+    flat value and every other one an error. -/
+theorem history_refines_adversarial {s : DSys σ} (hP : PolicyOK P s.geo.assoc WFp) (hs : CInv WFp s)
+    {m : Mem} (hm : MemOK m) (hL : ∀ a, logical s a = m.cells ((wrap32 a : Nat) : Int))
+    (ops : List (Spec.CacheAbs.Op × (Nat → σ))) (ho : ∀ p, p ∈ ops → p.1.wf ∧ ∀ k, WFp (p.2 k)) :
+    agreesAll (ops.map Prod.fst) (runOpsAdv P s ops).2 (flatOps m (ops.map Prod.fst)).2 ∧
+      CInv WFp (runOpsAdv P s ops).1 ∧
+      ∀ a, logical (runOpsAdv P s ops).1 a =
+        (flatOps m (ops.map Prod.fst)).1.cells ((wrap32 a : Nat) : Int) := by
+  obtain ⟨⟨h1, _, h3⟩, h4⟩ := history_agrees_adv hP ⟨hs, hm, hL⟩ ops ho
+  exact ⟨h4, h1, h3⟩
+
+/-- …in particular from power-on with the forced-victim policy, where the adversary names, before
+    each operation and for each set, the way to displace next (`vict k < assoc`): for EVERY sequence of
+    victim choices the cached system answers like the flat memory.  This is the form the differential
+    harness replays (it forces the victims the real LRU/PLRU objects chose). -/
+theorem history_refines_forced (g : Geo) (hg : GeoOK g) (wt : Bool) (penalty : Nat)
+    (h : List Spec.ByteStore.Op) (ops : List (Spec.CacheAbs.Op × (Nat → Nat)))
+    (ho : ∀ p, p ∈ ops → p.1.wf ∧ ∀ k, p.2 k < g.assoc) :
+    agreesAll (ops.map Prod.fst)
+      (runOpsAdv forcedOps (preload (DSys.init forcedOps wt g penalty (Mem.empty riscvCfg)) h) ops).2
+      (flatOps (run riscvCfg h) (ops.map Prod.fst)).2 := by
+  have hP := forced_ok g.assoc hg.assoc
+  obtain ⟨h1, h2, h3⟩ := preload_inv (P := forcedOps) g hg hP wt penalty h
+  obtain ⟨_, _, e3, _⟩ := preload_spec (DSys.init forcedOps wt g penalty (Mem.empty riscvCfg)) h
+  refine (history_refines_adversarial (by rw [e3]; exact hP) h1 (MemOK_run h) (fun a => ?_) ops ho).1
+  rw [h3 a, run_eq, applyCells_cells]
+  rfl
+
+/-! ## 5  Accesses that cross a word boundary -/
+
+/-- A read in the data range that crosses a word boundary (half-word at byte offset 3, word at offset
+    ≠ 0) is rejected with `ByteOffsetError(offset, max)`; the block has been fetched into the cache by
+    then, but the invariant holds and every stored value (the logical contents) is unchanged. -/
+theorem crossing_rejected_read {s : DSys σ} (hP : PolicyOK P s.geo.assoc WFp) (hs : CInv WFp s)
+    (bits : Nat) (addr : Int) (counted : Bool) (hb : widthOK bits) (hw : ¬ inWord bits addr)
+    (hin : inData addr) :
+    (s.read P bits addr counted).res =
+        .error (.byteOffset (wrap32 addr % 4) (if bits = 16 then 2 else 0)) ∧
+      CInv WFp (s.read P bits addr counted).sys ∧
+      ∀ a, logical (s.read P bits addr counted).sys a = logical s a :=
+  let h := read_crossing hP hs bits addr counted hb hw hin
+  ⟨h.1, h.2.1, h.2.2.1⟩
+
+/-- A cached write in the data range that crosses a word boundary is rejected with
+    `ByteOffsetError` under write-back and under write-through, on a hit and on a miss; the
+    policy state and (write-through) the counters may have changed, the stored values have not. -/
+theorem crossing_rejected_write {s : DSys σ} (hP : PolicyOK P s.geo.assoc WFp) (hs : CInv WFp s)
+    (bits : Nat) (addr : Int) (v : Nat) (hb : widthOK bits) (hw : ¬ inWord bits addr)
+    (hin : inData addr) :
+    (s.write P bits addr v false).res =
+        .error (.byteOffset (wrap32 addr % 4) (if bits = 16 then 2 else 0)) ∧
+      CInv WFp (s.write P bits addr v false).sys ∧
+      ∀ a, logical (s.write P bits addr v false).sys a = logical s a := by
+  unfold DSys.write
+  simp only [Bool.false_eq_true, if_false]
+  by_cases hwt : s.wt = true
+  · rw [if_pos hwt]
+    have h := writeWT_crossing hP hs bits addr v hb hw
+    exact ⟨h.1, h.2.1, h.2.2.1⟩
+  · rw [if_neg hwt]
+    have h := writeWB_crossing hP hs bits addr v hb hw hin
+    exact ⟨h.1, h.2.1, h.2.2.1⟩
+
+/-- The write-through MISS case on its own (the check added by the fix for finding F1): when the
+    block of `addr` is not resident, a crossing write-through write is rejected before the lower
+    memory is touched — at any address, inside or outside the data range — and the backing memory
+    itself is unchanged. -/
+theorem crossing_rejected_wt_miss {s : DSys σ} (hP : PolicyOK P s.geo.assoc WFp) (hs : CInv WFp s)
+    (bits : Nat) (addr : Int) (v : Nat) (hb : widthOK bits) (hw : ¬ inWord bits addr)
+    (hmiss : resident s addr = false) :
+    (s.writeWT P bits addr v).res =
+        .error (.byteOffset (wrap32 addr % 4) (if bits = 16 then 2 else 0)) ∧
+      (s.writeWT P bits addr v).sys.mem = s.mem ∧
+      CInv WFp (s.writeWT P bits addr v).sys ∧
+      ∀ a, logical (s.writeWT P bits addr v).sys a = logical s a := by
+  have h := writeWT_crossing hP hs bits addr v hb hw
+  refine ⟨h.1, ?_, h.2.1, h.2.2.1⟩
+  have hk : (dec s addr).setIdx < 2 ^ s.geo.idxBits := ArchSim.Lemmas.C03.decode_setIdx_lt _ _ _
+  obtain ⟨sets1, hrb, _, _⟩ := readBlock_spec hP hs.sets (dec s addr) hk
+  have hl : lookup s.sets (dec s addr).setIdx (dec s addr).tag = none := by
+    unfold resident at hmiss
+    cases hlk : lookup s.sets (dec s addr).setIdx (dec s addr).tag with
+    | none => rfl
+    | some w =>
+      have : (lookup s.sets (dec s addr).setIdx (dec s addr).tag).isSome = false := hmiss
+      rw [hlk] at this; cases this
+  rw [hl] at hrb
+  have hoff : ¬ (dec s addr).byteOff + bits / 8 ≤ 4 := hw
+  rw [writeWT_miss s bits addr v sets1 hrb,
+    laneErr_crossing bits (dec s addr) hb hoff (ArchSim.Lemmas.C03.decode_byteOff_lt _ _ _)]
+  rfl
+
+/-! ## 6  Accesses below the data range -/
+
+/-- A read whose wrapped address is below 16384 raises the address error (carrying the block-aligned
+    address, the first word the block fetch touches); invariant and stored values are unchanged. -/
+theorem out_of_range_rejected_read {s : DSys σ} (hP : PolicyOK P s.geo.assoc WFp) (hs : CInv WFp s)
+    (bits : Nat) (addr : Int) (counted : Bool) (hin : ¬ inData addr) :
+    (s.read P bits addr counted).res =
+        .error (.addr (((decode s.geo.idxBits s.geo.blkBits addr).blockBase : Nat) : Int)) ∧
+      CInv WFp (s.read P bits addr counted).sys ∧
+      ∀ a, logical (s.read P bits addr counted).sys a = logical s a :=
+  let h := read_bad hP hs bits addr counted hin
+  ⟨h.1, h.2.1, h.2.2.1⟩
+
+/-- A cached write whose wrapped address is below 16384 is rejected: write-back raises the address
+    error of the block fetch; write-through raises the address error of the lower-memory write (or,
+    if the access also crosses a word boundary, the byte-offset error, see `crossing_rejected_wt_miss`).
+    Invariant and stored values are unchanged. -/
+theorem out_of_range_rejected_write {s : DSys σ} (hP : PolicyOK P s.geo.assoc WFp) (hs : CInv WFp s)
+    (bits : Nat) (addr : Int) (v : Nat) (hb : widthOK bits) (hin : ¬ inData addr) :
+    (s.write P bits addr v false).res =
+        (if s.wt = true then
+          (if inWord bits addr then .error (.addr ((wrap32 addr : Nat) : Int))
+           else .error (.byteOffset (wrap32 addr % 4) (if bits = 16 then 2 else 0)))
+         else .error (.addr (((decode s.geo.idxBits s.geo.blkBits addr).blockBase : Nat) : Int))) ∧
+      CInv WFp (s.write P bits addr v false).sys ∧
+      ∀ a, logical (s.write P bits addr v false).sys a = logical s a := by
+  unfold DSys.write
+  simp only [Bool.false_eq_true, if_false]
+  by_cases hwt : s.wt = true
+  · rw [if_pos hwt, if_pos hwt]
+    by_cases hw : inWord bits addr
+    · rw [if_pos hw]
+      have h := writeWT_bad hP hs bits addr v hb hw hin
+      exact ⟨h.1, h.2.1, h.2.2.1⟩
+    · rw [if_neg hw]
+      have h := writeWT_crossing hP hs bits addr v hb hw
+      exact ⟨h.1, h.2.1, h.2.2.1⟩
+  · rw [if_neg hwt, if_neg hwt]
+    have h := writeWB_bad hP hs bits addr v hin
+    exact ⟨h.1, h.2.1, h.2.2.1⟩
+
+/-! ## 7  Why `blkBits ≤ 12` is required (known finding F6) -/
+
+/-- With 2^13 words per block the property is FALSE: the block containing the first valid data
+    address 16384 starts at address 0, so the block fetch of an accepted word read at 16384 on a fresh
+    system raises `MemoryAddressError(0)` although the flat memory answers 0; a write-back write at
+    16384 fails the same way (write-through succeeds: it does not allocate). -/
+theorem blockbits13_counterexample :
+    ∃ g : Geo, g.idxBits + g.blkBits + 2 ≤ 32 ∧ 0 < g.assoc ∧ g.blkBits = 13 ∧
+      widthOK 32 ∧ inWord 32 16384 ∧ inData 16384 ∧
+      ∀ wt : Bool,
+        (DSys.read lruOps (DSys.init lruOps wt g 0 (Mem.empty riscvCfg)) 32 16384 true).res =
+          .error (.addr 0) ∧
+        Mem.read (Mem.empty riscvCfg) 32 16384 = some (.ok 0) ∧
+        (DSys.write lruOps (DSys.init lruOps wt g 0 (Mem.empty riscvCfg)) 32 16384 7 false).res =
+          (if wt then .ok 0 else .error (.addr 0)) :=
+  ⟨⟨0, 13, 1⟩, by decide, by decide, rfl, by decide, by decide, by decide, by decide⟩
+
+/-! ## Non-vacuity -/
+
+-- the hypotheses are satisfiable: geometries, policies, the initial invariant
+example : GeoOK exGeo ∧ GeoOK exGeo2 := ⟨⟨by decide, by decide, by decide⟩, ⟨by decide, by decide, by decide⟩⟩
+example : PolicyOK lruOps exGeo.assoc (Repl.Pol.WF exGeo.assoc) := lru_ok _ (by decide)
+example : PolicyOK plruOps exGeo2.assoc (Repl.Pol.WF exGeo2.assoc) := plru_ok 1
+example (wt : Bool) : CInv (Repl.Pol.WF 1) (DSys.init lruOps wt exGeo 3 (Mem.empty riscvCfg)) :=
+  (init_inv exGeo ⟨by decide, by decide, by decide⟩ (lru_ok _ (by decide)) wt 3).1
+-- every operation of the example history is well formed; accepted and rejected ones both occur
+example : ∀ o, o ∈ exOps → o.wf := by decide
+example : exOps.map (fun o => decide o.accepted) =
+    [true, true, true, true, true, true, false, false, true, true, false, false, true] := by decide
+-- the cached results (write-back and write-through, LRU) and the flat results of the example history:
+-- instances of `history_refines_from_reset`, evaluated
+example : (runOps lruOps (DSys.init lruOps false exGeo 3 (Mem.empty riscvCfg)) exOps).2 =
+    [.ok 0, .ok 0, .ok 0xAA44, .ok 0, .ok 0x1122AA44, .ok 5, .error (.byteOffset 3 2),
+     .error (.addr 256), .ok 0, .ok 0xBEEFAA44, .error (.byteOffset 1 0), .error (.addr 64),
+     .ok 0xAA] := by decide
+example : (runOps lruOps (DSys.init lruOps true exGeo 3 (Mem.empty riscvCfg)) exOps).2 =
+    [.ok 0, .ok 0, .ok 0xAA44, .ok 0, .ok 0x1122AA44, .ok 5, .error (.byteOffset 3 2),
+     .error (.addr 256), .ok 0, .ok 0xBEEFAA44, .error (.byteOffset 1 0), .error (.addr 64),
+     .ok 0xAA] := by decide
+example : (flatOps (Mem.empty riscvCfg) exOps).2 =
+    [some (.ok 0), some (.ok 0), some (.ok 0xAA44), some (.ok 0), some (.ok 0x1122AA44), some (.ok 5),
+     none, none, some (.ok 0), some (.ok 0xBEEFAA44), none, none, some (.ok 0xAA)] := by decide
+-- the same history on the 2-way PLRU cache with 4-word blocks
+example : (runOps plruOps (DSys.init plruOps false exGeo2 0 (Mem.empty riscvCfg)) exOps).2 =
+    (runOps lruOps (DSys.init lruOps true exGeo 3 (Mem.empty riscvCfg)) exOps).2 := by decide
+-- `logical` after the history at specific addresses (write-back: the backing cell differs)
+example : logical (runOps lruOps (DSys.init lruOps false exGeo 3 (Mem.empty riscvCfg)) exOps).1 0x4003 = 0xBE
+    ∧ (runOps lruOps (DSys.init lruOps false exGeo 3 (Mem.empty riscvCfg)) exOps).1.mem.cells 0x4003 = 0x11 := by
+  decide
+
+-- the forced-victim run of the same history on the 2-way cache, the adversary alternating between
+-- forcing way 1 and way 0 in every set: an instance of `history_refines_forced`, evaluated
+example : (runOpsAdv forcedOps (DSys.init forcedOps false exGeo2 0 (Mem.empty riscvCfg))
+      (exOps.zipIdx.map (fun p => (p.1, fun _ => (p.2 + 1) % 2)))).2 =
+    (runOps lruOps (DSys.init lruOps true exGeo 3 (Mem.empty riscvCfg)) exOps).2 := by decide
+example : ∀ p, p ∈ exOps.zipIdx.map (fun p => (p.1, fun (_ : Nat) => (p.2 + 1) % 2)) →
+    p.1.wf ∧ ∀ k, p.2 k < exGeo2.assoc := by
+  intro p hp
+  simp only [List.mem_map] at hp
+  obtain ⟨q, hq, rfl⟩ := hp
+  refine ⟨?_, fun _ => Nat.mod_lt _ (by decide)⟩
+  have : ∀ o, o ∈ exOps → o.wf := by decide
+  exact this q.1 (List.fst_mem_of_mem_zipIdx hq)
+
 end ArchSim.Props.C03
